@@ -40,6 +40,9 @@ func init() {
 
 func genPipe(rng *rand.Rand, n int, st *Stats) []string {
 	var ops []string
+	if params["mode"] == "drop" {
+		return genPipeDrop(rng, n, st)
+	}
 	for i := 0; i < n; i++ {
 		committers := 3 + rng.Intn(6)
 		readers := 2 + rng.Intn(4)
@@ -160,6 +163,15 @@ func execPipe(ops []string, st *Stats) ([]string, []string) {
 	var oracle []string
 	for i, l := range ops {
 		w := strings.Fields(l)
+		if len(w) == 7 && w[0] == "drop" {
+			res, fails := execPipeDrop(w, st)
+			outs[i] = res
+			for _, f := range fails {
+				oracle = append(oracle, fmt.Sprintf("line %d: %s :: %s", i+1, l, f))
+			}
+			st.Inc("op:drop")
+			continue
+		}
 		if len(w) != 7 || w[0] != "case" {
 			outs[i] = "bad-op"
 			continue
